@@ -463,7 +463,18 @@ fn exec_random(t: &mut Tape, st: &mut Stats) -> Result<(), String> {
         last_ext: if t.chance(25) { b";last".to_vec() } else { vec![] },
         last_zeros: if t.chance(20) { t.range(1, 4) } else { 0 },
         trailers: (0..t.weighted(&[5, 2, 1]))
-            .map(|i| if i == 0 { b"X-Checksum: abc".to_vec() } else { b"y:\tz ".to_vec() })
+            .map(|i| {
+                if i == 0 && t.chance(15) {
+                    // a trailer line far longer than any internal scratch size
+                    let mut v = b"X-Sig: ".to_vec();
+                    v.extend(std::iter::repeat(b'a').take(t.range(250, 700)));
+                    v
+                } else if i == 0 {
+                    b"X-Checksum: abc".to_vec()
+                } else {
+                    b"y:\tz ".to_vec()
+                }
+            })
             .collect(),
     };
     let off = t.below(1000);
@@ -488,6 +499,11 @@ fn exec_random(t: &mut Tape, st: &mut Stats) -> Result<(), String> {
             _ => len.saturating_sub(t.below(12)).max(1),
         };
         cuts.push(p);
+    }
+    // cuts around the ends of the trailer lines
+    if !coding.trailers.is_empty() && t.chance(50) {
+        let p = len.saturating_sub(2 + t.below(6));
+        cuts.push(p.max(1));
     }
     // sometimes a byte-by-byte stretch
     if t.chance(25) {
